@@ -1650,8 +1650,8 @@ class ListProxy(list):
                 super().__setitem__(index, object)
                 self._parameter._objects[index] = object
             return
-        if self and not self._parameter.names:
-            self._parameter.names = _named_objs(self)
+        if self._parameter._objects and not self._parameter.names:
+            self._parameter.names = _named_objs(self._parameter._objects)
         with self._trigger(trigger):
             if index in self._parameter.names:
                 old = self._parameter.names[index]
@@ -1731,7 +1731,7 @@ class ListProxy(list):
                         if v is not object
                     }
             return object
-        if self and not self._parameter.names:
+        if self._parameter._objects and not self._parameter.names:
             raise ValueError(
                 'Cannot pop an object from {clsname}.objects if '
                 'objects was not declared as a dictionary.'
@@ -1755,7 +1755,7 @@ class ListProxy(list):
 
     def update(self, objects, **items):
         if not self._parameter.names:
-            self._parameter.names = _named_objs(self)
+            self._parameter.names = _named_objs(self._parameter._objects)
         objects = objects.items() if isinstance(objects, dict) else objects
         with self._trigger():
             for i, o in enumerate(objects):
